@@ -203,8 +203,10 @@ func finishNested(r NestedRec, cnt *counts) NestedRec {
 	return r
 }
 
-func nestedTCP(depth, qsize int) NestedRec {
-	r := NestedRec{Op: "nested", Transport: "tcp", How: "con", Depth: depth, QSize: qsize, Dispatch: []disp{}, Log: []string{}, Ev: []int{}}
+// how: "con" - the handler issues a GET; "ping" - the handler issues a blocking Ping on its own connection (the Pong is
+// a signal message: it must find its way to the waiting call although the handler occupies the read loop)
+func nestedTCP(depth, qsize int, how string) NestedRec {
+	r := NestedRec{Op: "nested", Transport: "tcp", How: how, Depth: depth, QSize: qsize, Dispatch: []disp{}, Log: []string{}, Ev: []int{}}
 	cnt := &counts{n: map[string]int{}}
 	t := conns.NewTCP(func(cfg *tcpclient.Config) {
 		cfg.ReceivedMessageQueueSize = qsize
@@ -212,6 +214,12 @@ func nestedTCP(depth, qsize int) NestedRec {
 			cnt.inc(req.Token())
 			p, _ := req.Path()
 			serve(p, func(ctx context.Context, q string) ([]byte, error) {
+				if how == "ping" {
+					if err := w.Conn().Ping(ctx); err != nil {
+						return nil, err
+					}
+					return []byte("a" + q[2:]), nil
+				}
 				resp, err := w.Conn().Get(ctx, q)
 				if err != nil {
 					return nil, err
@@ -254,11 +262,21 @@ func nestedTCP(depth, qsize int) NestedRec {
 	for d := depth; d >= 1; d-- {
 		tok := []byte{0xA0, byte(d)}
 		t.Stream.Feed(conns.Frame(int(codes.GET), tok, message.Options{{ID: message.URIPath, Value: []byte(fmt.Sprintf("n%d", d))}}, nil))
-		q, ok := waitOut(fmt.Sprintf("nested GET /q%d", d), func(x conns.TFrame) bool { return x.Code == int(codes.GET) && pathOf(x) == fmt.Sprintf("/q%d", d) })
+		q, ok := waitOut(fmt.Sprintf("nested GET /q%d", d), func(x conns.TFrame) bool {
+			if how == "ping" {
+				return x.Code == int(codes.Ping)
+			}
+			return x.Code == int(codes.GET) && pathOf(x) == fmt.Sprintf("/q%d", d)
+		})
 		if !ok {
 			return finishNested(r, cnt)
 		}
 		nestedReqs[d] = q
+		if how == "ping" {
+			// (a Ping is a signal, not a request: the statement does not promise that later messages are processed while a
+			// handler waits for a Pong - only that the awaited answer gets through)
+			continue
+		}
 		ptok := []byte{0xB0, byte(d)}
 		t.Stream.Feed(conns.Frame(int(codes.GET), ptok, message.Options{{ID: message.URIPath, Value: []byte("plain")}}, nil))
 		if _, ok := waitOut("answer to /plain", func(x conns.TFrame) bool {
@@ -269,11 +287,24 @@ func nestedTCP(depth, qsize int) NestedRec {
 	}
 	for d := 1; d <= depth; d++ {
 		q := nestedReqs[d]
-		t.Stream.Feed(conns.Frame(int(codes.Content), q.Token, nil, []byte(fmt.Sprintf("a%d", d))))
+		if how == "ping" {
+			t.Stream.Feed(conns.Frame(int(codes.Pong), q.Token, nil, nil))
+		} else {
+			t.Stream.Feed(conns.Frame(int(codes.Content), q.Token, nil, []byte(fmt.Sprintf("a%d", d))))
+		}
 		tok := []byte{0xA0, byte(d)}
 		want := fmt.Sprintf("r%d:a%d", d, d)
 		if _, ok := waitOut("answer to /n"+fmt.Sprint(d), func(x conns.TFrame) bool {
 			return x.Code == int(codes.Content) && bytes.Equal(x.Token, tok) && string(x.Payload) == want
+		}); !ok {
+			return finishNested(r, cnt)
+		}
+	}
+	if how == "ping" { // and afterwards the connection serves on
+		ptok := []byte{0xB0, 0x01}
+		t.Stream.Feed(conns.Frame(int(codes.GET), ptok, message.Options{{ID: message.URIPath, Value: []byte("plain")}}, nil))
+		if _, ok := waitOut("answer to /plain", func(x conns.TFrame) bool {
+			return x.Code == int(codes.Content) && bytes.Equal(x.Token, ptok) && string(x.Payload) == "plain"
 		}); !ok {
 			return finishNested(r, cnt)
 		}
@@ -296,7 +327,10 @@ func RunNested(out string) {
 				for _, how := range []string{"con", "non", "blockwise", "lateack", "samemid", "samemid", "samemid", "samemid"} {
 					w.Put(nestedUDP(d, q, how))
 				}
-				w.Put(nestedTCP(d, q))
+				w.Put(nestedTCP(d, q, "con"))
+				if d == 1 { // (no loop replacement while a handler waits for a Pong: one level only)
+					w.Put(nestedTCP(1, q, "ping"))
+				}
 			}
 		}
 	}
